@@ -92,3 +92,18 @@ Definition m_hist (norb : nat) (p : list (list (N * N * gz))) (ops : list hop8) 
   : list (option gz) * list (list gz) :=
   let '(p', obs) := run (map (vec_of norb) p) (map (aop_of norb) ops) in
   (obs, map (fun v => map (fun ab => gco v (det_of norb (fst ab) (snd ab))) basis) p').
+
+(* C09 *)
+From FQE Require Import Ctor.
+Definition m_ctor (kind : nat) (a b c : Z) : option (list (Z * Z * Z * Z)) :=
+  match kind with
+  | O => ctor_get a b c
+  | S O => ctor_nc a c
+  | S (S O) => ctor_sc a c
+  | S (S (S O)) => ctor_nc_coded a c
+  | _ => ctor_sc_coded a c
+  end.
+(* time reversal: T (c |A,B>) = conj(c) (-1)^(nb (na+1)) |B,A> *)
+Definition m_trev (v : list (N * N * gz)) : list (N * N * gz) :=
+  map (fun x => match x with (a, b, c) =>
+         (b, a, gsgn (Nat.odd (popcount b * (popcount a + 1))) (gzconj c)) end) v.
